@@ -30,7 +30,7 @@ static _Atomic int in_seq;         /* 1 while the sequential reference runs */
 struct world {
     struct cmb_resource *res; struct cmb_resourcepool *pool; struct cmb_buffer *buf; struct cmb_condition *cond;
     struct cmb_objectqueue *oq; struct cmb_priorityqueue *pq; uint64_t objctr;
-    int flag; uint64_t h; double acc[4]; uint64_t nev; int steps; int lattice;
+    int flag; uint64_t h; double acc[4]; uint64_t nev; int steps; int lattice; double near_shape, near_p;
     struct cmb_process *cust[12]; int ncust;
 };
 static _Thread_local struct world *W;
@@ -87,6 +87,8 @@ static void *customer(struct cmb_process *me, void *ctx)
             /* fall through */
         default: {
             double x = cmb_random_normal(0.0, 1.0) + cmb_random_std_beta(2.0, 3.0) + (double)cmb_random_poisson(2.0) + cmb_random_lognormal(0.0, 0.25);
+            x += cmb_random_std_gamma(W->near_shape) + (double)cmb_random_geometric(W->near_p);
+            hmixd(cmb_random_std_gamma(0.002)); hmixd(cmb_random_exponential(1e-306));        /* results in the subnormal range are results too */
             W->acc[2] += x; hmixd(x);
             if (cmb_random_bernoulli(0.2)) { int v = (int)cmb_random_dice(0, W->ncust - 1); if (v != id && cmb_process_status(W->cust[v]) == CMB_PROCESS_RUNNING) { cmb_process_interrupt(W->cust[v], CMB_PROCESS_INTERRUPTED, cmb_random_dice(-1, 1)); hmix(1000 + (uint64_t)v); } }
             break; }
@@ -102,20 +104,30 @@ static void run_sim(uint64_t seed, uint32_t len, struct res *out)
     struct world w; memset(&w, 0, sizeof w); W = &w;
     cmb_logger_flags_off(CMB_LOGGER_INFO | CMB_LOGGER_WARNING);
     cmb_random_initialize(seed);
-    cmb_event_queue_initialize(0.0);
     w.h = 0xcbf29ce484222325ull ^ seed; w.steps = (int)len; w.ncust = 3 + (int)(seed % 8); w.lattice = (int)((seed >> 8) & 1);
-    w.res = cmb_resource_create(); cmb_resource_initialize(w.res, "R");
+    /* half of the trials build (part of) their model before they initialise their event queue: whatever the thread did before must not show */
+    const bool early = ((seed >> 9) & 1) != 0;
+    /* parameters that are close neighbours of what the neighbouring trials use (caches keyed on a parameter must compare exactly) */
+    { static const double nb[4] = { 25.0, 1.0 / (0.2 * 0.2), 25.000000000000004, 25.0 * (1.0 + 1e-12) }; w.near_shape = nb[(seed >> 10) & 3]; w.near_p = ((seed >> 12) & 1) ? 0.3 : 0.30000000000000004; }
+    /* drawn by the trial function itself (not in a process), first thing after seeding: the neighbouring shape, and results in the subnormal range */
+    hmixd(cmb_random_std_gamma(w.near_shape)); hmix(cmb_random_geometric(w.near_p));
+    for (int k = 0; k < 6; k++) hmixd(cmb_random_std_gamma(0.002));
+    hmixd(cmb_random_exponential(1e-306)); hmixd(cmb_random_normal(0.0, 1e-308));
+    if (early) { hmixd(cmb_time()); w.res = cmb_resource_create(); cmb_resource_initialize(w.res, "R"); cmb_resource_start_recording(w.res); }
+    cmb_event_queue_initialize(0.0);
+    if (!early) { w.res = cmb_resource_create(); cmb_resource_initialize(w.res, "R"); }
     w.pool = cmb_resourcepool_create(); cmb_resourcepool_initialize(w.pool, "P", 4);
     w.buf = cmb_buffer_create(); cmb_buffer_initialize(w.buf, "B", 10);
     w.cond = cmb_condition_create(); cmb_condition_initialize(w.cond, "C");
     w.oq = cmb_objectqueue_create(); cmb_objectqueue_initialize(w.oq, "OQ", 8);
     w.pq = cmb_priorityqueue_create(); cmb_priorityqueue_initialize(w.pq, "PQ", 8);
-    cmb_resource_start_recording(w.res);
+    if (!early) cmb_resource_start_recording(w.res);
     for (int k = 0; k < w.ncust; k++) { char nm[16]; snprintf(nm, sizeof nm, "c%d", k); w.cust[k] = cmb_process_create(); cmb_process_initialize(w.cust[k], nm, customer, (void *)(intptr_t)k, w.lattice ? cmb_random_dice(0, 1) : cmb_random_dice(-2, 2)); cmb_process_start(w.cust[k]); }
     cmb_event_schedule(end_sim, NULL, NULL, 5.0 + 3.0 * (double)len, 0);
     uint64_t guard = 0;
     while (cmb_event_execute_next()) { if (++guard > 2000000) { hmix(0xBAD); break; } }
     cmb_resource_stop_recording(w.res);
+    hmix(cmb_random_geometric(w.near_p)); hmixd(cmb_random_std_gamma(w.near_shape));       /* the last cached-parameter calls of this trial */
     struct cmb_wtdsummary ws; ws.ds.cookie = 0; cmb_wtdsummary_initialize(&ws);
     if (cmb_timeseries_count(cmb_resource_history(w.res)) > 1) { cmb_timeseries_summarize(cmb_resource_history(w.res), &ws); w.acc[3] = cmb_wtdsummary_mean(&ws); }
     out->hash = w.h; out->events = w.nev; for (int k = 0; k < 4; k++) out->fp[k] = w.acc[k];
@@ -193,7 +205,7 @@ static void run_qsim(uint64_t seed, uint32_t len, uint64_t tid)
 static _Atomic int q_mode;
 
 /* ---- pollution: different per worker thread and per call, hence per schedule */
-static _Thread_local uint64_t tl_calls;
+static _Thread_local uint64_t tl_calls; static _Atomic uint64_t n_unpolluted_caches;
 static void pollute(void)
 {
     uint64_t z = vr_mix((uint64_t)(uintptr_t)pthread_self() ^ (++tl_calls * 0x9e3779b97f4a7c15ull));
@@ -201,7 +213,8 @@ static void pollute(void)
     /* leave caches half-consumed */
     cmb_random_initialize(vr_next(&pr));
     int nf = 1 + (int)vr_below(&pr, 63); for (int k = 0; k < nf; k++) (void)cmb_random_flip();
-    (void)cmb_random_std_gamma(1.0 + (double)vr_below(&pr, 9)); (void)cmb_random_geometric(0.11 + 0.1 * (double)vr_below(&pr, 8));
+    if (vr_chance(&pr, 1, 2)) { (void)cmb_random_std_gamma(1.0 + (double)vr_below(&pr, 9)); (void)cmb_random_geometric(0.11 + 0.1 * (double)vr_below(&pr, 8)); }
+    else atomic_fetch_add(&n_unpolluted_caches, 1);    /* leave what the previous trial on this thread left (a neighbour of this trial's parameter) */
     /* logger flags flipped */
     if (vr_chance(&pr, 1, 2)) cmb_logger_flags_on(CMB_LOGGER_WARNING); else cmb_logger_flags_off(CMB_LOGGER_WARNING);
     /* heap scrambler: object addresses differ between runs */
@@ -267,7 +280,7 @@ void vr_case(uint64_t seed, uint64_t idx, int profile)
     for (uint64_t i = 0; i < ntrials; i++) { int k; for (k = 0; k < nseen; k++) if (pthread_equal(seen[k], who_ran[i])) break; if (k == nseen && nseen < 64) seen[nseen++] = who_ran[i]; if (k < 64) per[k]++; asg = asg * 31 + (uint64_t)k; }
     uint64_t mx = 0, mnn = ~0ull; for (int k = 0; k < nseen; k++) { if (per[k] > mx) mx = per[k]; if (per[k] < mnn) mnn = per[k]; }
     vr_fp_mix(asg);
-    VR_ADD("trials", ntrials); VR_CNT("experiments"); VR_MAX("max_workers_used", nseen); VR_MAX("max_trials_on_one_worker", mx);
+    VR_ADD("trials", ntrials); VR_CNT("experiments"); VR_ADD("trials_started_on_the_previous_trials_parameter_caches", n_unpolluted_caches); VR_MAX("max_workers_used", nseen); VR_MAX("max_trials_on_one_worker", mx);
     if (nseen > 1) VR_CNT("experiments_on_multiple_workers");
     if (ntrials < 16) VR_CNT("experiments_fewer_trials_than_cores"); else if (ntrials == 16) VR_CNT("experiments_trials_equal_cores"); else VR_CNT("experiments_more_trials_than_cores");
     /* bit-identical results */
